@@ -394,9 +394,52 @@ fn scale(w: &mut Worker) {
     }
 }
 
+/// Several documents parsed one after the other into the SAME output variable, their handles kept
+/// only inside another collection (an array, or a map), then encoded from there: each comes back as
+/// what it was, whatever was parsed after it.
+fn documents_in_sequence(w: &mut Worker) {
+    let docs: [(&str, &str); 6] = [
+        ("{\"a\":\"1\"}", "{\"a\":\"1\"}"),
+        ("[1,2]", "[\"1\",\"2\"]"),
+        ("{\"k\":{\"z\":[]}}", "{\"k\":{\"z\":[]}}"),
+        ("[]", "[]"),
+        ("[[\"x\"],{\"y\":true}]", "[[\"x\"],{\"y\":\"true\"}]"),
+        ("{\"a\":\"1\"}", "{\"a\":\"1\"}"),
+    ];
+    for keep_in in ["array", "map", "variables"] {
+        for n in 2..=docs.len() {
+            let mut text = String::from(if keep_in == "map" { "docs = map\n" } else { "docs = array\n" });
+            for (i, (d, _)) in docs.iter().take(n).enumerate() {
+                text.push_str(&crate::render::line(Some("v"), "json_parse", &["--collection", d]));
+                text.push('\n');
+                match keep_in {
+                    "array" => text.push_str("array_push ${docs} ${v}\n"),
+                    "map" => text.push_str(&format!("map_put ${{docs}} k{} ${{v}}\n", i)),
+                    _ => text.push_str(&format!("keep{} = set ${{v}}\n", i)),
+                }
+            }
+            let mut expect: Vec<(String, Option<String>)> = vec![];
+            for (i, (_, e)) in docs.iter().take(n).enumerate() {
+                match keep_in {
+                    "array" => text.push_str(&format!("h = array_get ${{docs}} {}\n", i)),
+                    "map" => text.push_str(&format!("h = map_get ${{docs}} k{}\n", i)),
+                    _ => text.push_str(&format!("h = set ${{keep{}}}\n", i)),
+                }
+                text.push_str(&format!("e{} = json_encode --collection ${{h}}\n", i));
+                expect.push((format!("e{}", i), Some(e.to_string())));
+            }
+            text.push_str("after = set reached");
+            expect.push(("after".to_string(), Some("reached".to_string())));
+            let exp: Vec<(&str, Option<String>)> = expect.iter().map(|(k, v)| (k.as_str(), v.clone())).collect();
+            scale_case(w, &format!("documents-in-sequence kept in {} count {}", keep_in, n), &text, &exp);
+        }
+    }
+}
+
 pub fn worker(w: &mut Worker) {
     let tier = w.tier;
     scale(w);
+    documents_in_sequence(w);
     let mut s = Session::new();
     macro_rules! run {
         ($cj:expr, $nt:expr, $class:expr, $body:expr) => {{
@@ -567,7 +610,7 @@ pub fn crash_sig(_case: &Value, kind: &str) -> String {
     kind.to_string()
 }
 
-pub const RULE: &str = "texts: every string up to the length bound over {a e-acute emoji NUL LF SP = U+FEFF} through string_to_bytes/bytes_to_string and base64_encode/base64_decode (bytes compared in the handle table as well); integers: every n in 0..=bound plus 2^k-1,2^k,2^k+1 for k<=64 through hex_encode/hex_decode; JSON: every document of the stated depth with width<=2 over leaves {\"a\",\"a.b\",\"\",1,1.5,true,null} plus 14 number leaves at the edges of the i64/u64/f64 ranges (numbers must keep their exact decimal value) and keys {k,a.b,'a b',x[0]} (depth 3 over a covering subset of depth-2 shapes) through json_parse --collection / json_encode --collection compared (as JSON values) with the documented normalisation, then release -r must free every handle; properties: every 1-entry map with key length 1..2 and value length 0..bound over {a SP = : # ! \\\\ e-acute LF}, every 2-entry map over length-1 keys/values plus a few non-BMP entries, through map_to_properties/map_load_properties. Non-trivial: non-ASCII or NUL text, n>255, container documents, every properties case. states = distinct (kind, size class) outcomes; transitions = round trips executed. Scale cases: texts of 4095/65537 (thorough 1000003) bytes, plain and with a two-byte character across the middle, through the bytes and base64 round trips (and the length of the base64 text); JSON arrays and objects of 10/300 (thorough 30000) members and arrays nested 10/60/101/127 deep (127 is the deepest document the parser accepts) through json_parse --collection / json_encode --collection; maps of as many entries through the properties text";
+pub const RULE: &str = "texts: every string up to the length bound over {a e-acute emoji NUL LF SP = U+FEFF} through string_to_bytes/bytes_to_string and base64_encode/base64_decode (bytes compared in the handle table as well); integers: every n in 0..=bound plus 2^k-1,2^k,2^k+1 for k<=64 through hex_encode/hex_decode; JSON: every document of the stated depth with width<=2 over leaves {\"a\",\"a.b\",\"\",1,1.5,true,null} plus 14 number leaves at the edges of the i64/u64/f64 ranges (numbers must keep their exact decimal value) and keys {k,a.b,'a b',x[0]} (depth 3 over a covering subset of depth-2 shapes) through json_parse --collection / json_encode --collection compared (as JSON values) with the documented normalisation, then release -r must free every handle; properties: every 1-entry map with key length 1..2 and value length 0..bound over {a SP = : # ! \\\\ e-acute LF}, every 2-entry map over length-1 keys/values plus a few non-BMP entries, through map_to_properties/map_load_properties. Non-trivial: non-ASCII or NUL text, n>255, container documents, every properties case. states = distinct (kind, size class) outcomes; transitions = round trips executed. Scale cases: texts of 4095/65537 (thorough 1000003) bytes, plain and with a two-byte character across the middle, through the bytes and base64 round trips (and the length of the base64 text); JSON arrays and objects of 10/300 (thorough 30000) members and arrays nested 10/60/101/127 deep (127 is the deepest document the parser accepts) through json_parse --collection / json_encode --collection; maps of as many entries through the properties text. Documents in sequence: 2..6 documents parsed into one variable, their handles kept in an array / a map / other variables, then encoded from there. The wide one-character alphabet and every control character as a text, a JSON string / key / item, a properties key and value";
 pub const ASSUMPTIONS: &[&str] = &["values are handed to the commands as already-bound arguments (no '$' or '%' in the alphabets)", "JSON equality is serde_json value equality (object key order is not significant)"];
 pub const EXHAUSTIVE: bool = true;
 pub const WALL_CAP_S: (u64, u64) = (50, 1500);
